@@ -12,7 +12,8 @@ class SPEC:
     rule = ("engine agg under the virtual clock: for one to three flow keys, ALL arrival orders and multiplicities of source-node (S) and "
             "destination-node (D) records of length <= 5 (quick; 6 thorough) x flow kinds {inter-node needing correlation, inter-node denied at "
             "egress (drop / reject), inter-node rejected at ingress, intra-node, to-external} x emptiness patterns of the correlate fields on "
-            "either side, with expiry scans placed after every prefix (deadlines reached by advancing the clock, so unready flows go through the "
+            "either side (plus: both records of a flow in ONE data set, in both orders, encoded by the exporter code and decoded by a collecting process - "
+            "the production path), with expiry scans placed after every prefix (deadlines reached by advancing the clock, so unready flows go through the "
             "retry / drop path) and a dump after every step; plus random mixes. The correlation spec Ipfix.C07.checkShown (ready iff both sides "
             "seen or no correlation needed; never exported unready; every field non-empty on either side is non-empty in the merged record and "
             "comes from one of them; filled flag) is evaluated on every exported and dumped record of the implementation. Non-trivial = records "
@@ -106,6 +107,60 @@ def gen_cases(rng, tier):
             else:
                 ops += ["agg scan %s %d" % (rng.choice(["-", "-", "1", "2"]), rng.choice([0, 1])), "agg dump"]
         cases.append(Case(ops, "random", True, True))
+    cases += msg_cases(random.Random(rng.randrange(1 << 30)), tier)
+    return cases
+
+
+def msg_cases(rng, tier):
+    """the source-node and the destination-node record of a flow arrive in ONE data set, decoded by a collecting
+    process (`agg msg`), in both orders; alone, with a record of another flow between / before them, with a third
+    record of the flow, and after / before a record that came alone"""
+    cases = []
+    shapes = [("SD", None), ("DS", None), ("SxD", None), ("DxS", None), ("xSD", None), ("SDS", None), ("DSD", None),
+              ("SD", "S"), ("DS", "D"), ("D", "S"), ("S", "D"), ("Sx", "D"), ("xD", "S")]
+    for kind in KINDS:
+        for xi, extras in enumerate(EXTRAS if KINDS[kind]["ft"] == 2 else EXTRAS[:1]):
+            for shape, alone in shapes:
+                for scans in (False, True):
+                    ops = ["agg new %d %d" % (A, I)]
+                    cnt = 0
+                    if alone and rng.random() < 0.5:          # the single record first, then the message
+                        cnt += 1
+                        ops += [record(kind, alone, 1, cnt, extras), "agg dump"]
+                        alone = None
+                    recs = []
+                    for ch in shape:
+                        cnt += 1
+                        recs.append(record("intra" if cnt % 2 else kind, "S", 2, cnt, extras) if ch == "x" else record(kind, ch, 1, cnt, extras))
+                    ops += [AG.msg_op(recs, rng.choice([None, None, rng.randrange(1, 1 << 30)])), "agg dump"]
+                    if scans:
+                        for _ in range(3):
+                            ops += ["agg adv %d" % A, "agg scan - 0", "agg dump"]
+                    if alone:
+                        cnt += 1
+                        ops += [record(kind, alone, 1, cnt, extras), "agg dump"]
+                    ops += ["agg adv %d" % I, "agg scan - 1", "agg dump"]
+                    cases.append(Case(ops, kind + "-msg", True, True))
+    kinds = list(KINDS)
+    for _ in range(60 if tier == "quick" else 4000):
+        ops = ["agg new %d %d" % (A, I)]
+        kmap = {k: rng.choice(kinds) for k in (1, 2, 3)}
+        xmap = {k: rng.choice(EXTRAS) for k in (1, 2, 3)}
+        cnt = 0
+        for _ in range(rng.randint(3, 40)):
+            r = rng.random()
+            if r < 0.6:
+                recs = []
+                for _ in range(rng.choice([1, 2, 2, 3, 4])):
+                    key = rng.choice([1, 2, 3])
+                    cnt += 1
+                    recs.append(record(kmap[key], rng.choice("SD"), key, cnt, xmap[key]))
+                ops += [AG.msg_op(recs) if len(recs) > 1 or rng.random() < 0.3 else recs[0], "agg dump"]
+            elif r < 0.8:
+                ops += ["agg adv %d" % rng.choice([1, 50, A, I - A, I]), "agg dump"]
+            else:
+                ops += ["agg scan %s %d" % (rng.choice(["-", "-", "1", "2"]), rng.choice([0, 1])), "agg dump"]
+        cases.append(Case(ops, "random-msg", True, True))
     return cases
 
 
